@@ -130,8 +130,7 @@ def replay_main(path):
     except Exception as e:
         asp = "exception:" + type(e).__name__
         # pydantic's ValidationError stands for the lite wrapper
-        same = asp == cex["aspect"] or (cex["aspect"] == "exception:LiteValidationError"
-                                         and type(e).__name__ == "ValidationError")
+        same = asp == cex["aspect"]
         if cex["aspect"].startswith("exception:"):
             info = {"reproduced": True, "aspect": asp, "message": str(e)[:300], "same_aspect": same}
         else:          # the symbolic run failed an assertion, the concrete run crashed elsewhere: not a reproduction
